@@ -1,6 +1,6 @@
 (* C02 — embed: result = calling outer, which forwards *args/**kwargs to inner. *)
 From Sigtools.Model Require Import Base Bind Roles Algebra.
-From Sigtools.Proofs Require Import SmallModel Basics.
+From Sigtools.Proofs Require Import SmallModel Basics Deciders.
 
 (* every result of embed went through the validating constructor *)
 Theorem C02_wf ss uva uvk r : embed ss uva uvk = Ok r -> validate (params r) = true.
@@ -16,3 +16,26 @@ Print Assumptions C02_only_value_errors.
 Theorem C02_small_model sigs s c : In s sigs -> accepts s (rep_for sigs c) = accepts s c.
 Proof. exact (accepts_rep sigs s c). Qed.
 Print Assumptions C02_small_model.
+
+(* the extracted deciders for "calling outer, which forwards its surplus to
+   inner" are complete for ALL calls (family of shapes up to the SUM of the
+   positional counts: a surplus larger than inner's capacity must be tried) *)
+Theorem C02_chain_sound_decider_complete r o i uva uvk n0 names0 extra :
+  chain_sound_cex r o i uva uvk n0 names0 extra = None ->
+  forall c, noncolliding c r (o :: i :: extra) = true -> accepts r c = true ->
+            chain o i uva uvk n0 names0 c = true.
+Proof. exact (chain_sound_cex_complete r o i uva uvk n0 names0 extra). Qed.
+Print Assumptions C02_chain_sound_decider_complete.
+
+Theorem C02_chain_exact_decider_complete r o i uva uvk n0 names0 extra :
+  chain_exact_cex r o i uva uvk n0 names0 extra = None ->
+  forall c, noncolliding c r (o :: i :: extra) = true ->
+            accepts r c = chain o i uva uvk n0 names0 c.
+Proof. exact (chain_exact_cex_complete r o i uva uvk n0 names0 extra). Qed.
+Print Assumptions C02_chain_exact_decider_complete.
+
+Theorem C02_chain_none_decider_complete o i uva uvk n0 names0 :
+  chain_none_cex o i uva uvk n0 names0 = None ->
+  forall c, chain o i uva uvk n0 names0 c = false.
+Proof. exact (chain_none_cex_complete o i uva uvk n0 names0). Qed.
+Print Assumptions C02_chain_none_decider_complete.
